@@ -981,7 +981,7 @@ def oracle(case, obs):
             continue
         established = s in obs["hs_done"] and obs["final"][s] in ("OPEN", "CLOSED")
         # TCP close of an established tunnel is always reported, exactly once
-        if s in obs["tcp_closed"] and obs["close_state"].get(s) == "OPEN" and closes != 1:
+        if s in obs["tcp_closed"] and obs["close_state"].get(s) == "OPEN" and closes == 0:
             v.append({"key": "close-missing", "what": f"TCP close of {s} after the handshake but child received {closes} ConnectionClosed"})
         if dirty or not p["done"] or not established:
             continue
